@@ -338,6 +338,8 @@ func runC12(c *Ctx) {
 	c12BufferReuse(c, r)
 	c12IgnoredThenQueries(c, r, "udp")
 	c12IgnoredThenQueries(c, r, "pc")
+	heldDatagrams(c, r, "udp")
+	heldDatagrams(c, r, "pc")
 	c12Concurrent(c, r, "udp")
 	c12Concurrent(c, r, "tcp")
 	// 4. a TCP server reading requests cut at every offset (incl. inside the length prefix)
